@@ -5,7 +5,7 @@ CONSTANTS
   MemSizes = {2}
   FileModes = {TRUE}
   Palettes = {}
-  Kinds = {2, 3}
+  Kinds = {2}
   RestartResizes = FALSE
   IgnoreModes = {FALSE}
   AnonModes = {FALSE}
